@@ -1,4 +1,5 @@
 import ScenicModel.Gen.SpecTable
+import ScenicModel.Model.SpecEval
 import Driver.Util
 /-! line protocol for the specifier-resolution model (C06); built-in specifiers are instantiated
 from the table regenerated from /repo (`Gen/SpecTable.lean`).
@@ -11,7 +12,9 @@ sanitised by the harness).  `-` is the empty list.
     spec  = `name|p=1,q=3|d1,d2|M or N|m1,m2`   (a raw descriptor)
           | `@key|prop|extra1,extra2`            (an instance of the generated table)
     mode 2 applies `prepare2D` first (`2F`: the value of `with heading` is a vector field)
-    -> `ok <assign> <modifier> <trace>` | `err <kind>`
+    -> `ok <assign> <modifier> <trace> <final>` | `err <kind>`
+       final = the context after the evaluation loop (property=producer of its value), or
+       `evalerr:depNotFinal:<node>:<prop>` / `evalerr:assertFail:<node>:<prop>`
 * `entry <key>` -> the table entry as a raw descriptor
 * `merge <classdecl>*`, classdecl = `name|p:d1,d2:adf;q::` -> `ok <defaults> <finals> <dynamics>` | `err`
 * `transform2d p1,p2,...` -> `ok p1,...` | `err`
@@ -49,7 +52,7 @@ def parseClass (tok : String) : Option ClassInfo :=
     let ds ← (splitL ";" defs).mapM fun e => match e.splitOn ":" with
       | [p, d] => some (p, splitL "," d)
       | _ => none
-    pure ⟨ds, splitL "," finals, Scenic.Gen.modifierOrdersAllProps⟩
+    pure ⟨ds, splitL "," finals⟩
   | _ => none
 
 def showNode : Node → String
@@ -66,6 +69,11 @@ def showMap (m : List (String × Node)) : String :=
 def showOutcome (o : Outcome) : String :=
   "ok " ++ showMap o.assign ++ " " ++ showMap o.modifier ++ " " ++
     joinL ";" ((trace o).map fun e => showNode e.1 ++ "[" ++ ",".intercalate e.2 ++ "]")
+
+def showEval : Except EvalErr Ctx → String
+  | .ok ctx => showMap ctx
+  | .error (.depNotFinal n d) => "evalerr:depNotFinal:" ++ showNode n ++ ":" ++ d
+  | .error (.assertFail n p) => "evalerr:assertFail:" ++ showNode n ++ ":" ++ p
 
 def showSpec (s : Spec) : String :=
   "|".intercalate [s.name.replace " " "+", joinL "," (s.prios.map fun e => e.1 ++ "=" ++ toString e.2), joinL "," s.deps,
@@ -92,7 +100,7 @@ def handle : List String → String
     | some C, some S =>
       let S := if mode.startsWith "2" then prepare2D (facingFor (mode == "2F")) S else S
       match resolve C S with
-      | .ok o => showOutcome o
+      | .ok o => showOutcome o ++ " " ++ showEval (evaluate C S o)
       | .error e => "err " ++ showErr e
     | _, _ => "bad-op"
   | ["entry", key] =>
